@@ -17,8 +17,8 @@ from sshuttle.helpers import debug2, which, get_path, SocketRWShim, Fatal
 
 def get_module_source(name):
     spec = importlib.util.find_spec(name)
-    with open(spec.origin, "rt") as f:
-        return f.read().encode("utf-8")
+    with open(spec.origin, "rb") as f:
+        return f.read()
 
 
 def empackage(z, name, data=None):
